@@ -3,6 +3,7 @@ package main
 import (
 	"go/token"
 	"go/types"
+	"strings"
 
 	"golang.org/x/tools/go/ssa"
 )
@@ -620,4 +621,108 @@ func ruleFormatterAssertionIndependent(c *Ctx) {
 		}
 	}
 	c.census("T14-INDEP", "reads of a posting's balance assertion in the formatter", n, 1)
+}
+
+// ruleMissingKeyOverwrite (N-MISSING): a plain map read `m[k]` yields the zero value for a key that is not there.
+// Stored into a field of a syntax-tree node that was given a value earlier in the same function, it wipes that
+// value whenever the key is absent - "not written" is read as "written empty" (C03-m29: the commodity directive's
+// Format taken from the inline sample, then `dir.Format = dir.Subdirs["format"]` for every directive that has any
+// subdirective: `commodity 1.000,00 EUR` with only a `note` line loses its format and the journal's numbers are
+// printed and read with the defaults).  The comma-ok form, or a store under a test of the value read, is the idiom
+// the parser uses elsewhere.
+func ruleMissingKeyOverwrite(c *Ctx) {
+	if c.ranOnce("ruleMissingKeyOverwrite") {
+		return
+	}
+	ppk := c.P.SSAPkg("internal/parser")
+	n, judged := 0, 0
+	for _, f := range c.P.ModuleFuncs() {
+		top := f
+		for top.Parent() != nil {
+			top = top.Parent()
+		}
+		if top.Pkg != ppk {
+			continue
+		}
+		var stores []*ssa.Store
+		for _, b := range f.Blocks {
+			for _, ins := range b.Instrs {
+				if st, ok := ins.(*ssa.Store); ok {
+					if fa, ok := st.Addr.(*ssa.FieldAddr); ok && strings.Contains(types.TypeString(fa.X.Type(), nil), "/internal/ast.") {
+						stores = append(stores, st)
+					}
+				}
+			}
+		}
+		for _, st := range stores {
+			lk, ok := stripConv(st.Val).(*ssa.Lookup)
+			if !ok || lk.CommaOk {
+				continue
+			}
+			if _, isMap := lk.X.Type().Underlying().(*types.Map); !isMap {
+				continue
+			}
+			judged++
+			// guarded by a test of the value read (`if v := m[k]; v != "" { node.F = v }`)?
+			guarded := false
+			var uses func(v ssa.Value, depth int) bool
+			uses = func(v ssa.Value, depth int) bool {
+				if v == ssa.Value(lk) {
+					return true
+				}
+				if depth > 4 {
+					return false
+				}
+				if ins, ok := v.(ssa.Instruction); ok {
+					for _, op := range ins.Operands(nil) {
+						if *op != nil && uses(*op, depth+1) {
+							return true
+						}
+					}
+				}
+				return false
+			}
+			for _, cc := range controlCondsPol(st.Block()) {
+				if uses(cc.Cond, 0) {
+					guarded = true
+				}
+			}
+			if guarded {
+				continue
+			}
+			for _, st2 := range stores {
+				if st2 == st || !sameAddr(st2.Addr, st.Addr, 0) {
+					continue
+				}
+				if k, ok := st2.Val.(*ssa.Const); ok && (k.Value == nil || k.Value.ExactString() == `""` || k.Value.ExactString() == "0") {
+					continue
+				}
+				earlier := st2.Block() != st.Block() && st2.Block().Dominates(st.Block())
+				if st2.Block() == st.Block() {
+					for _, ins := range st.Block().Instrs {
+						if ins == ssa.Instruction(st2) {
+							earlier = true
+							break
+						}
+						if ins == ssa.Instruction(st) {
+							break
+						}
+					}
+				}
+				if !earlier {
+					// an earlier store on some path (not dominating) still loses its value on that path
+					earlier = reachesBlock(st2.Block(), st.Block()) && st2.Block() != st.Block()
+				}
+				if earlier {
+					n++
+					c.finding("N-MISSING", funcName(f), "a plain map read overwrites syntax-tree field "+fieldVarOfAddr(st.Addr.(*ssa.FieldAddr)).Name(), st.Pos(),
+						"field "+fieldVarOfAddr(st.Addr.(*ssa.FieldAddr)).Name()+" of a syntax-tree node, set earlier in this function, is overwritten with a plain map read m[k]: when the key is absent the read yields the zero value and the earlier value is lost (a commodity directive with an inline sample and some other subdirective loses its format)")
+					break
+				}
+			}
+		}
+	}
+	if n == 0 {
+		c.ok("N-MISSING", "internal/parser", "no plain map read overwrites a syntax-tree field that already has a value", token.NoPos, "stores of plain map reads into tree fields judged: "+itoa(judged))
+	}
 }
